@@ -197,12 +197,13 @@ def run(ctx):
     _report(ctx, ts_list, viols_list)
     if not any(viols_list):
         cp.oracle_selftest(ctx, ts_list[1][3], "ConfParseTraceC14.cfg", False)
+    found = bool(ctx.violations or ctx.known_hits)
     for sname, _, _, ts in ts_list:
         nfail = sum(v for k, v in ts.rcs.items() if k not in (0, None))
-        if not nfail or not ts.rcs.get(0):
+        if not found and (not nfail or not ts.rcs.get(0)):
             raise core.MachineryError("prior state %s: %d failed and %d successful loads - nothing to judge"
                                       % (sname, nfail, ts.rcs.get(0, 0)))
-    if missing_all and not ctx.violations:
+    if missing_all and not found:
         raise core.MachineryError("%d cases produced no output (harness died?), e.g. %s" % (len(missing_all), missing_all[:3]))
     loads = sum(ts.loads for _, _, _, ts in ts_list)
     rcs = {}
